@@ -8,7 +8,7 @@ from ..loader import AnalysisError
 from ..report import rule
 from ..resolve import Resolver
 from ..terms import App, Attr, Idx, Lst, Range, Slc, Sym, Tup
-from .common import Flow, bind_args, calls_to, short, unparse
+from .common import skipping_guards, Flow, bind_args, calls_to, short, unparse
 from .plumb import plumb
 
 STATS = "cluster_maintenance.update_cluster_member_data_statistics"
@@ -138,6 +138,11 @@ def r3(ctx):
         data_ok = len(v.args) >= 2 and v.args[1] == Sym(fi.params[1])
         ctx.check(data_ok, fi, "the update reads the training data given to the phase", line=s.stmt.lineno, role="data",
                   expected=fi.params[1], found=str(v.args[1]) if len(v.args) > 1 else "")
+        hdr = b.cfg.stmt_node.get(id(s.loops[-1])) if s.loops else None
+        skips = skipping_guards(b, s.node, hdr)
+        ctx.check(not skips, fi, "no cluster id is skipped: the refresh of cluster k is unconditional inside the loop", line=s.stmt.lineno,
+                  role="unconditional", expected="no branch around the update",
+                  found="; ".join(f"{'' if pol else 'not '}({t})" for t, pol, _o in skips))
         rng = s.loop_ranges[-1] if s.loops else None
         want = Range(0, Attr(Attr(Sym(fi.params[0]), "arguments"), "num_clusters"))
         ctx.check(rng == want, fi, "the loop visits every cluster id in range(num_clusters)", line=s.stmt.lineno, role="range",
@@ -240,5 +245,7 @@ def r4(ctx):
 @rule("C12", "R5", "ORDER", "membership read by the statistics phase is current, also right after a repopulation event")
 def r5(ctx):
     from . import c13, c08
-    c13.r2(ctx)    # assigning labels re-derives member_points immediately (full-equality skip condition only)
-    c08.r6(ctx)    # each refill is committed to the working state through the label setter
+    ctx.sub(c13.r2)    # assigning labels re-derives member_points immediately (full-equality skip condition only)
+    ctx.sub(c08.r6)    # each refill is committed to the working state through the label setter
+    from . import c09
+    ctx.sub(c09.r2)    # nothing relabels between the statistics phase and the optimiser: repopulate -> statistics -> optimise
